@@ -145,7 +145,7 @@ func mt(p *int64) *metav1.Time {
 
 func (v *jcVersion) obj() *execution.JobConfig {
 	jc := &execution.JobConfig{
-		ObjectMeta: metav1.ObjectMeta{Namespace: "ns", Name: v.Name, UID: types.UID(v.UID)},
+		ObjectMeta: metav1.ObjectMeta{Namespace: nsOf(v.Name), Name: bareOf(v.Name), UID: types.UID(v.UID)},
 	}
 	jc.Spec.Concurrency.Policy = execution.ConcurrencyPolicyAllow
 	if v.HasSchedule {
@@ -216,7 +216,7 @@ func (v *jcVersion) computeFires(cfg cronCfg, lo, hi int64) error {
 		loc = cfg.DefaultLoc
 	}
 	for _, line := range v.exprsUsed() {
-		e, err := cfg.oracleParse(line, "ns/"+v.Name)
+		e, err := cfg.oracleParse(line, fullKey(v.Name))
 		if err != nil {
 			return err
 		}
@@ -274,6 +274,24 @@ type cronCase struct {
 	Obs     []cronObs `json:"obs"`
 }
 
+// A JobConfig identifier of the generator is its name in the default namespace "ns", or
+// "<namespace>/<name>" for another namespace (same bare names in two namespaces occur).
+func splitNS(id string) (string, string) {
+	if i := strings.Index(id, "/"); i >= 0 {
+		return id[:i], id[i+1:]
+	}
+	return "ns", id
+}
+func fullKey(id string) string { ns, n := splitNS(id); return ns + "/" + n }
+func nsOf(id string) string    { ns, _ := splitNS(id); return ns }
+func bareOf(id string) string  { _, n := splitNS(id); return n }
+func idOf(ns, name string) string {
+	if ns == "ns" {
+		return name
+	}
+	return ns + "/" + name
+}
+
 // ---- implementation driver ----
 
 type recHandler struct {
@@ -283,7 +301,7 @@ type recHandler struct {
 }
 
 func (r *recHandler) EnqueueJobConfig(jc *execution.JobConfig, ts time.Time) error {
-	r.reqs = append(r.reqs, [2]int64{r.names[jc.Name], ts.Unix()})
+	r.reqs = append(r.reqs, [2]int64{r.names[idOf(jc.Namespace, jc.Name)], ts.Unix()})
 	return r.inner.EnqueueJobConfig(jc, ts)
 }
 
@@ -330,7 +348,8 @@ func (im *cronImpl) heapView(hi int64) [][2]int64 {
 			panic(fmt.Sprintf("heap name index inconsistent: names[%d]=%s index=%d", i, n, index[n]))
 		}
 		if int64(prios[i]) <= hi {
-			out = append(out, [2]int64{im.names[strings.TrimPrefix(n, "ns/")], int64(prios[i])})
+			kns, kn := splitNS(n)
+			out = append(out, [2]int64{im.names[idOf(kns, kn)], int64(prios[i])})
 		}
 	}
 	sort.Slice(out, func(a, b int) bool { return out[a][0] < out[b][0] })
@@ -360,7 +379,7 @@ func (im *cronImpl) apply(o cronOp, hi int64) (cronObs, error) {
 		im.names[o.JC.Name] = o.JC.Key
 		im.sc.informers.JobConfigs.Set(o.JC.obj())
 	case "delete":
-		im.sc.informers.JobConfigs.Remove("ns/" + o.Name)
+		im.sc.informers.JobConfigs.Remove(fullKey(o.Name))
 	case "deliver":
 		im.sc.informers.JobConfigs.Deliver(0)
 	}
@@ -571,6 +590,12 @@ func runCron(ctx *RunCtx) *Result {
 				name := fmt.Sprintf("jc%d", nextKey)
 				if c.Chance(1, 5) {
 					name = fmt.Sprintf("jc.%d-x", nextKey)
+				}
+				if len(names) > 0 && c.Chance(1, 4) {
+					// the same bare name as an existing JobConfig, in another namespace
+					if cand := "ns2/" + bareOf(Pick(c, names)); live[cand] == nil {
+						name = cand
+					}
 				}
 				v := g.genVersion(name, nextKey, newUID(), g.t0)
 				nextKey++
